@@ -18,12 +18,13 @@ import (
 
 // Case is one cell of the grid.
 type Case struct {
-	Arity   int    `json:"arity"`   // values returned by the callee besides the error: 0, 1, 2
-	Outcome string `json:"outcome"` // ok | err | err2 (two wrapped calls: the first succeeds, the second fails)
-	Op      string `json:"op"`      // "!" | "?" | "?:"
-	Pos     string `json:"pos"`     // stmt | define | assign | arg | return | binary | two
-	Results int    `json:"results"` // enclosing function returns: 1 = error, 2 = (int, error), 3 = (int, string, error)
-	Named   bool   `json:"named"`   // enclosing results are named and hold non-zero values when the operator runs
+	Arity   int    `json:"arity"`               // values returned by the callee besides the error: 0, 1, 2
+	Outcome string `json:"outcome"`             // ok | err | err2 (two wrapped calls: the first succeeds, the second fails)
+	Op      string `json:"op"`                  // "!" | "?" | "?:"
+	Pos     string `json:"pos"`                 // stmt | define | assign | arg | return | binary | two
+	Results int    `json:"results"`             // enclosing function returns: 1 = error, 2 = (int, error), 3 = (int, string, error)
+	Named   bool   `json:"named"`               // enclosing results are named and hold non-zero values when the operator runs
+	Multi   bool   `json:"multiline,omitempty"` // the wrapped call is written over several lines (the frame's line is where it starts)
 }
 
 var (
@@ -98,6 +99,15 @@ func (p *refFrame) Unwrap() error { return p.err }
 
 func each1(f func(n int)) { f(0) }
 
+// wantLine: the line on which the wrapped expression under test starts (set by the enclosing function
+// from runtime.Caller just before the statement; the subject's //line directives make that an XGo line).
+var wantLine int
+
+func here() int {
+	_, _, l, _ := runtime.Caller(1)
+	return l
+}
+
 func refWrap(err error, code string, fn string) error {
 	return &refFrame{err, "main." + fn + " " + code}
 }
@@ -123,6 +133,8 @@ func reportPanic(e interface{}, target error, code string, fn string) {
 	fmt.Println("panic: errors.Is", errors.Is(err, target), "unwrap-reaches-original", reaches(err, target),
 		"text-has-original", strings.Contains(text, target.Error()), "text-has-expr", strings.Contains(text, code),
 		"text-has-func", strings.Contains(text, "main."+fn), "text-has-file", strings.Contains(text, "main.xgo"))
+	_, isRef := err.(*refFrame)
+	fmt.Println("panic: frame-line-is-where-the-expression-starts", isRef || strings.Contains(text, fmt.Sprintf("main.xgo:%d ", wantLine)))
 }
 
 func reportErr(err error, target error, code string) {
@@ -132,6 +144,8 @@ func reportErr(err error, target error, code string) {
 	}
 	fmt.Println("err: errors.Is", errors.Is(err, target), "unwrap-reaches-original", reaches(err, target))
 	fmt.Println("INFO returned-error-carries-frame", strings.Contains(err.Error(), code))
+	// a frame is allowed, not demanded; one that is there must locate the expression
+	fmt.Println("err: frame-line-is-where-the-expression-starts", !strings.Contains(err.Error(), "main.xgo:") || strings.Contains(err.Error(), fmt.Sprintf("main.xgo:%d ", wantLine)))
 }
 `
 
@@ -232,6 +246,9 @@ func encName(i int) string { return fmt.Sprintf("enc%d", i) }
 func build(k Case, i int) (xgoDecl, goDecl, body string) {
 	fn := encName(i)
 	call := fmt.Sprintf("c%d(ok)", k.Arity)
+	if k.Multi {
+		call = fmt.Sprintf("c%d(\n\tok,\n)", k.Arity)
+	}
 	vars := []string{"v1", "w1"}[:k.Arity]
 	dflt := "55"
 	if k.Arity == 2 {
@@ -286,11 +303,23 @@ func build(k Case, i int) (xgoDecl, goDecl, body string) {
 		g = exp + errref(k, fn, "d1(ok2)", []string{"v2"}, "e2", []string{"66"}) + "y := v1 + v2\nfmt.Println(\"got\", y)\n"
 	}
 	head := fmt.Sprintf("func %s(ok bool, ok2 bool) %s {\n", fn, resultList(k))
-	xgoDecl = head + indent(preset(k)+x+after) + "}\n"
-	goDecl = head + indent(preset(k)+g+after) + "}\n"
+	// the line of the wrapped expression relative to the statement that records it
+	off := map[string]int{"closure": 1, "lambda": 1}[k.Pos]
+	if k.Pos == "assign" {
+		off = k.Arity
+	}
+	if k.Pos == "two" && k.Outcome == "err2" && k.Multi {
+		off += 2 // the failing second call starts on the line that closes the first, multi-line one
+	}
+	mark := fmt.Sprintf("wantLine = here() + %d\n", off+1)
+	xgoDecl = head + indent(preset(k)+mark+x+after) + "}\n"
+	goDecl = head + indent(preset(k)+mark+g+after) + "}\n"
 
 	ok, ok2 := k.Outcome == "ok" || k.Outcome == "err2", k.Outcome != "err2"
 	target, code := "orig", call
+	if k.Multi {
+		code = fmt.Sprintf("c%d(", k.Arity) // the frame shows the source text; its first token is what is looked for
+	}
 	if k.Outcome == "err2" {
 		target, code = "orig2", "d1(ok2)"
 	}
@@ -328,7 +357,7 @@ func unitFor(k Case, i int) progs.Unit {
 	return progs.Unit{Key: className(k), XGo: body, Go: body, Decls: x, GoDecls: g}
 }
 
-var opts = progs.Options{Prelude: prelude, Imports: []string{"errors", "strings"}, PerProgram: 150}
+var opts = progs.Options{Prelude: prelude, Imports: []string{"errors", "strings", "runtime"}, PerProgram: 150}
 
 // stripInfo removes the informational lines (not demanded by the statement) from an output.
 func stripInfo(out string) (rest string, info []string) {
@@ -413,14 +442,19 @@ func enumerate(thorough bool) (cases []Case, skipped map[string]int64) {
 				for results := 1; results <= 3; results++ {
 					for _, named := range []bool{false, true} {
 						for _, outcome := range []string{"ok", "err", "err2"} {
-							k := Case{arity, outcome, op, pos, results, named}
-							if why := wellTyped(k); why != "" {
-								if outcome != "err2" {
-									skipped[why]++
+							for _, multi := range []bool{false, true} {
+								k := Case{arity, outcome, op, pos, results, named, multi}
+								if why := wellTyped(k); why != "" {
+									if outcome != "err2" && !multi {
+										skipped[why]++
+									}
+									continue
 								}
-								continue
+								if multi && (op != "!" && op != "?" || outcome == "ok") {
+									continue // the layout matters for the frame only: operators that build one, on the error path
+								}
+								cases = append(cases, k)
 							}
-							cases = append(cases, k)
 						}
 					}
 				}
@@ -507,7 +541,7 @@ func main() {
 	c.Rule = "complete grid callee arity (0,1,2 values + error) x outcome (ok, err; for two wrapped calls also: second fails) x operator (!, ?, ?:default) x use position (expression statement, :=, =, call argument, return operand, binary operand, two wrapped calls in one expression) x enclosing result list (error; (int,error); (int,string,error)) x (unnamed results | named results holding non-zero values); cells that are not typable in Go are skipped by the generator's own typing and counted; quick = thorough (the grid is complete in both); distinct_nontrivial = cases in which a wrapped call returns a non-nil error"
 	c.Assumptions = []string{
 		"errref (documented expansion): v..., e := call; if e != nil { '!': panic(error wrapping e) | '?': return zero values..., e | '?:d': v = d }; the call is written once; operands are evaluated left to right",
-		"expr!: the recovered value must be an error with errors.Is(v, original), an Unwrap chain reaching the original, and a text containing the original text, the source expression, the enclosing function (main.<name>) and the file name (the line number is not checked)",
+		"expr!: the recovered value must be an error with errors.Is(v, original), an Unwrap chain reaching the original, and a text containing the original text, the source expression, the enclosing function (main.<name>), the file name and the line on which the wrapped expression starts (also when the call is written over several lines; the expected line is taken from runtime.Caller on the preceding statement)",
 		"expr?: the returned error must satisfy errors.Is / Unwrap-reaches-original (a frame is allowed, not demanded; its presence is only counted); all other results must be zero values, also when named results hold other values",
 		"on error the callees return non-zero values next to the error, so a lowering that uses them instead of the default / zero values is visible",
 		"expr?:d with a 2-value call uses a 2-value call as d (x, t := c2(ok)?:dflt2()); d is side-effect free, so laziness of d is not judged",
